@@ -1,3 +1,4 @@
 pub mod table;
 pub mod iptable;
 pub mod query;
+pub mod recvfilter;
